@@ -130,7 +130,7 @@ def run(res: C.Result, deep: bool):
     for i in range(0, len(cases), 20000):
         _feed(res, cases[i:i + 20000], builts)
     # the same property through the YAML front end (field-list reuse, struct members, struct arrays)
-    groups = [(f"yd{i}", ap, g) for i, g in enumerate(L.yaml_directed()) for ap in (True, False)]
+    groups = [(f"yd{i}{'p' if ap else 'n'}", ap, g) for i, g in enumerate(L.yaml_directed()) for ap in (True, False)]
     for i in range(1500 if deep else 250):
         groups.append((f"yr{i}", rng.random() < 0.7, L.yaml_random(rng)))
     _feed_yaml(res, groups)
